@@ -261,9 +261,9 @@ def part(o):
 
 class Check(PropertyCheck):
     id = 'C06'
-    props = ['Tables.v', 'C06.v']
+    props = ['Tables.v', 'C06.v', 'C06Structs.v']
     static_targets = ['theories/Model/Exec.vo', 'theories/Model/Pinned.vo', 'theories/Lemmas/TablesL.vo',
-                      'theories/Lemmas/InverseL.vo']
+                      'theories/Lemmas/InverseL.vo', 'theories/Lemmas/InverseStructsL.vo']
     coq_header = A.COQ_HEADER + 'From Furax Require Import Model.Inverse.\nFrom FuraxGen Require Import Tables.\n'
     shard = 60
     workers = 8
